@@ -86,6 +86,11 @@ func c12Decode(b []byte, measure bool) (*dns.Message, string) {
 	var err error
 	var ms0, ms1 runtime.MemStats
 	var viol string
+	// the decoder sees the message in a buffer of exactly its size (as dns.DoH allocates
+	// it): a read beyond the message then faults instead of silently succeeding
+	exact := make([]byte, len(b))
+	copy(exact, b)
+	b = exact[:len(exact):len(exact)]
 	watch("C12", map[string]any{"bytes": hx(b)}, func() {
 		if measure {
 			runtime.ReadMemStats(&ms0)
@@ -101,6 +106,23 @@ func c12Decode(b []byte, measure bool) (*dns.Message, string) {
 	if measure {
 		if alloc, limit := ms1.TotalAlloc-ms0.TotalAlloc, uint64(1<<20+2048*len(b)); alloc > limit {
 			return nil, fmt.Sprintf("DecodeMessage allocated %d bytes for a %d-byte input (bound %d)", alloc, len(b), limit)
+		}
+	}
+	// the same message inside a larger buffer (spare capacity filled with junk) decodes
+	// identically: nothing beyond len(b) is ever looked at
+	{
+		big := make([]byte, len(b)+64)
+		copy(big, b)
+		for i := len(b); i < len(big); i++ {
+			big[i] = 0xa5
+		}
+		var m2 *dns.Message
+		err2 := guard(func() error { var e error; m2, e = dns.DecodeMessage(big[:len(b)]); return e })
+		if isPanic(err2) {
+			return nil, fmt.Sprintf("DecodeMessage panicked: %v", err2)
+		}
+		if (err == nil) != (err2 == nil) || (err == nil && fmt.Sprintf("%+v", *m) != fmt.Sprintf("%+v", *m2)) {
+			return nil, fmt.Sprintf("the result depends on bytes beyond the end of the message (exact buffer: err=%v; buffer with spare capacity: err=%v)", err, err2)
 		}
 	}
 	if err != nil {
@@ -167,6 +189,66 @@ func c12Resolve(body []byte) string {
 		}
 	}
 	return ""
+}
+
+// svcParamMessage crafts a response whose LAST record is an HTTPS/SVCB record with
+// an arbitrary SvcParams block: any keys in any order (repeats included), value
+// lengths around the sizes the known keys imply (0, 1, 2, 4, 16 and their
+// neighbours and multiples), inner length bytes that may lie. The block ends
+// exactly where the message ends.
+func svcParamMessage(t *rapid.T) []byte {
+	msg := make([]byte, 12)
+	msg[2] = 0x81
+	binary.BigEndian.PutUint16(msg[4:], 1)
+	nbefore := rapid.IntRange(0, 2).Draw(t, "sp_before")
+	binary.BigEndian.PutUint16(msg[6:], uint16(1+nbefore))
+	msg = append(msg, 3, 'w', 'w', 'w', 7, 'e', 'x', 'a', 'm', 'p', 'l', 'e', 0, 0, 65, 0, 1)
+	for i := 0; i < nbefore; i++ {
+		msg = append(msg, 0xc0, 12, 0, 1, 0, 1, 0, 0, 0, 60, 0, 4, 192, 0, 2, byte(i))
+	}
+	var params []byte
+	for i, n := 0, rapid.IntRange(0, 6).Draw(t, "sp_n"); i < n; i++ {
+		key := rapid.SampledFrom([]int{0, 1, 2, 3, 4, 5, 6, 7, 8, 4, 6, 4, 6, 1, 65535}).Draw(t, "sp_key")
+		l := rapid.SampledFrom([]int{0, 1, 2, 3, 4, 5, 7, 8, 9, 12, 15, 16, 17, 20, 24, 31, 32, 33, 40, 48}).Draw(t, "sp_len")
+		v := hello.GenBytes(t, "sp_val", l)
+		switch {
+		case key == 1 && l > 0 && rapid.IntRange(0, 2).Draw(t, "sp_alpn_ok") != 0:
+			// alpn: length-prefixed ids that tile the value, the last one possibly lying
+			for p := 0; p < l; {
+				k := min(l-p-1, rapid.IntRange(0, 6).Draw(t, "sp_alpn_l"))
+				v[p] = byte(k)
+				p += 1 + k
+			}
+			if rapid.IntRange(0, 3).Draw(t, "sp_alpn_lie") == 0 {
+				v[0] = byte(rapid.IntRange(0, 255).Draw(t, "sp_alpn_liev"))
+			}
+		case key == 0 && l >= 2:
+			for p := 0; p+1 < l; p += 2 {
+				v[p], v[p+1] = 0, byte(rapid.IntRange(0, 8).Draw(t, "sp_mand"))
+			}
+		}
+		params = append(params, byte(key>>8), byte(key), byte(l>>8), byte(l))
+		params = append(params, v...)
+	}
+	if len(params) >= 4 && rapid.IntRange(0, 5).Draw(t, "sp_len_lie") == 0 {
+		// the last parameter's declared length disagrees with what is left
+		last := 0
+		for p := 0; p+4 <= len(params); {
+			last = p
+			p += 4 + int(params[p+2])<<8 | int(params[p+3])
+		}
+		d := rapid.IntRange(-2, 3).Draw(t, "sp_len_delta")
+		nl := max(0, (int(params[last+2])<<8|int(params[last+3]))+d)
+		params[last+2], params[last+3] = byte(nl>>8), byte(nl)
+	}
+	ty := rapid.SampledFrom([]int{65, 65, 65, 64}).Draw(t, "sp_type")
+	rd := append([]byte{0, byte(rapid.IntRange(0, 2).Draw(t, "sp_prio"))}, 0)
+	if rapid.Bool().Draw(t, "sp_target") {
+		rd = append(rd[:2], 0xc0, 12)
+	}
+	rd = append(rd, params...)
+	msg = append(msg, 0xc0, 12, byte(ty>>8), byte(ty), 0, 1, 0, 0, 0, 60, byte(len(rd)>>8), byte(len(rd)))
+	return append(msg, rd...)
 }
 
 // advMessage crafts a message whose names are built from fragments chained by
@@ -316,17 +398,20 @@ func advMessage(t *rapid.T) ([]byte, []string) {
 
 func TestC12(t *testing.T) {
 	rec := ev.Get("C12")
-	rec.Rule("inputs: (a) crafted messages whose names are chains of fragments linked by compression pointers (backward chains up to 24 deep, cycles, self pointers, forward pointers, arbitrary offsets) referenced from question, owner names and the RDATA of NS/CNAME/PTR/MX/SOA/SRV/SVCB/HTTPS/RRSIG/NSEC records; (b) valid messages (C13 generators, both codecs) with adversarial edits: a name replaced by a pointer to any offset, count fields rewritten, 16-bit fields overwritten (lying RDLENGTH), truncation; every tenth decoded message is served as the DoH body to a Resolver. Oracle: returns within the watchdog, no panic, allocations <= 1 MiB + 2 KiB per input byte, decoded names bounded, RR data has the Go type its record type implies, Resolve/Targets do not panic. distinct = input hash; non-trivial = input holds a compression pointer or a count/length that disagrees with the data")
-	rec.Mandatory("cycle", "chain_ge16", "forward_pointer", "lying_count", "decoded_ok", "resolver_driven", "edited_valid")
+	rec.Rule("inputs: (a) crafted messages whose names are chains of fragments linked by compression pointers (backward chains up to 24 deep, cycles, self pointers, forward pointers, arbitrary offsets) referenced from question, owner names and the RDATA of NS/CNAME/PTR/MX/SOA/SRV/SVCB/HTTPS/RRSIG/NSEC records; (a2) responses whose last record is an HTTPS/SVCB record with an arbitrary SvcParams block (any keys, repeats, value lengths around 0/1/2/4/16 and their multiples, lying inner lengths) ending exactly at the end of the message; (b) valid messages (C13 generators, both codecs) with adversarial edits: a name replaced by a pointer to any offset, count fields rewritten, 16-bit fields overwritten (lying RDLENGTH), truncation; every tenth decoded message is served as the DoH body to a Resolver. Oracle: the decoder gets a buffer of exactly the message's size and, for comparison, the same bytes inside a larger junk-filled buffer (identical outcome required); returns within the watchdog, no panic, allocations <= 1 MiB + 2 KiB per input byte, decoded names bounded, RR data has the Go type its record type implies, Resolve/Targets do not panic. distinct = input hash; non-trivial = input holds a compression pointer or a count/length that disagrees with the data")
+	rec.Mandatory("cycle", "chain_ge16", "forward_pointer", "lying_count", "decoded_ok", "resolver_driven", "edited_valid", "crafted_svcparams")
 	thorough := os.Getenv("VERIF_TIER") == "thorough"
 	rapid.Check(t, func(t *rapid.T) {
 		var b []byte
 		var cl []string
 		nontrivial := true
-		switch rapid.IntRange(0, 2).Draw(t, "source") {
+		switch rapid.IntRange(0, 3).Draw(t, "source") {
 		case 0:
 			b, cl = advMessage(t)
 			cl = append(cl, "crafted")
+		case 3:
+			b = svcParamMessage(t)
+			cl = append(cl, "crafted_svcparams")
 		default:
 			if rapid.Bool().Draw(t, "own_encoder") {
 				b = dnsfx.GenMessage(t, "m").Bytes()
